@@ -17,7 +17,8 @@ RULE = ("cases: every op/layer/loss of the two catalogues x operand layout (inde
         "the forward; storage independence of clone()/detach(); documented in-place calls touch only what they "
         "document.  non-trivial: operands share memory / are reused, or the op's kernel uses in-place arithmetic "
         "on an intermediate (conv bias, batch-norm affine, cross-entropy, place_windows, pooling), or the second "
-        "graph is built; distinct by hash of the case")
+        "graph is built; distinct by hash of the case"
+        " Also: exact zeros among the operands, upstream gradient of the other dtype, batch-norm running-statistic buffers snapshotted around forward and backward.")
 ASSUMPTIONS = ["Tensor(ndarray) wraps the given array without copying when the dtype matches (so views stay views)",
                "dropout/random constructors are excluded from the bit-identical-repetition assertion (they are C19's)"]
 
